@@ -451,7 +451,37 @@ def rule_per_particle_terms(ctx):
     ctx.covered('R13.10', 'criteria accumulated into the MERCURIUS critical distance of particle i depend on particle i', n, floor=4)
 
 
+def rule_self_exclusion(ctx, rule='R13.11'):
+    """R13.11: a tree walk started for particle p1 considers every particle it reaches in an opened cell as a partner, except
+    p1 itself. The exclusion compares two particle indices for identity (c->pt != p1). An ordering in its place ("record
+    each pair from its lower index only") halves the candidates: it relies on the pair being found from the other
+    particle's walk as well, which the opening criterion (built on the second-largest radius and p1's own radius) does not
+    promise - a small particle next to the largest one is then never reported."""
+    tu = cfront.load_tu('collision.c')
+    n = 0
+    for fname in sorted(tu.funcs):
+        if 'tree' not in fname:
+            continue
+        fn = tu.func(fname)
+        if cfront.body(fn) is None:
+            continue
+        for e in walk(cfront.body(fn)):
+            if e.get('kind') != 'BinaryOperator' or e.get('opcode') not in ('!=', '==', '<', '>', '<=', '>='):
+                continue
+            a, b = render(e['inner'][0]).replace(' ', ''), render(e['inner'][1]).replace(' ', '')
+            if not ((a.endswith('.pt') and re.search(r'\.p[12]$', b)) or (b.endswith('.pt') and re.search(r'\.p[12]$', a))):
+                continue
+            n += 1
+            if e['opcode'] not in ('!=', '=='):
+                ctx.report(rule, '%s:self-exclusion' % fname, 'src/collision.c:%s %s' % (line_of(e), fname),
+                           'the particle found in the cell is compared with the searching particle by %s: every partner on the other side of the ordering is skipped as if it were the particle itself, so pairs are reported only from one of their members - and not at all when that member\'s walk does not open the cell' % render(e))
+    ctx.covered(rule, 'tree searches exclude only the searching particle itself (identity test of the two indices)', n, floor=2)
+
+
 def run(ctx):
+    from . import c14
+    c14.rule_unsorted_removal_moves(ctx)     # R14.14: the re-indexing of pending collisions after a merger assumes "last -> index"
+    rule_self_exclusion(ctx)
     rule_per_particle_terms(ctx)
     rule_top_two(ctx)
     from . import serial
